@@ -184,6 +184,7 @@ CAUSES = [
     "tx_error",
     "requires_encryption",
     "write_raise",
+    "tx_stall",
 ]
 
 
@@ -219,6 +220,10 @@ def cause_event(cause: str, trigger: dict, phase: str, rng: random.Random | None
         # writes - a keepalive ping, a request, a reply to a device request - fails inside the writing call
         exc = (rng.choice(["RuntimeError", "OSError"]) if rng else "RuntimeError")
         return [{"at": t, "do": "fault", "kind": "write_raises", "always": True, "exc": exc, "cause": cause}]
+    if cause == "tx_stall":
+        # the device stops draining its socket for good: from now on everything the library writes piles up in the
+        # transport's buffer, and whatever closes the connection later finds that buffer non-empty
+        return [{"at": t, "do": "fault", "kind": "tx_block", "d": 3000.0, "cause": cause}]
     if cause == "stall":
         return [{"at": t, "do": "fault", "kind": "stall", "d": 200.0, "phase": phase, "cause": cause}]
     raise ValueError(cause)
